@@ -3,6 +3,7 @@ import Tftp.Model.Reassemble
 import Tftp.Props.C11
 import Tftp.Lemmas.Net
 import Tftp.Lemmas.NetTotal
+import Tftp.Lemmas.NetSafe
 /-!
 # C01 — Download fidelity
 
@@ -164,5 +165,21 @@ theorem c01_closed_loop_outcome (sc : SCfg) (rc : RCfg) (hb : 0 < sc.b) (hw1 : 1
   rcases h with ⟨h1, h2, _⟩ | ⟨h1, _⟩
   · exact Or.inl ⟨h1, h2⟩
   · exact Or.inr h1
+
+end Tftp
+
+namespace Tftp
+
+/-- **never a wrong copy reported complete - at any moment, for any length**: for every file (no bound on the
+number of blocks, so also beyond the 16-bit wrap), block size, window size, every schedule of lost and duplicated
+datagrams and every number of steps of the closed loop: if the receiving side reports success, its file is
+byte-identical to the sender's. (`c01_closed_loop_no_corruption` says the same, and more about the accepted
+prefix, for at most 65535 blocks; this theorem removes the bound.) -/
+theorem c01_never_a_wrong_copy (sc : SCfg) (rc : RCfg) (hb : 0 < sc.b) (hw1 : 1 ≤ sc.w) (hw : sc.w < 65536)
+    (hrep : sc.rep = 1) (ht : 0 < sc.timeout) (hrb : rc.b = sc.b) (hrw : rc.w = sc.w) (hrrep : rc.rep = 1)
+    (fl : Faults) (f : Bytes) (fuel : Nat) :
+    (netRun sc rc fl fuel (netInit sc rc fl f)).r.status = .ok →
+      (netRun sc rc fl fuel (netInit sc rc fl f)).r.win.file.content = f :=
+  closed_loop_never_wrong sc rc ⟨⟨hb, hw1, hw, hrep, hrb, hrw, hrrep⟩, ht⟩ fl f fuel
 
 end Tftp
